@@ -122,13 +122,42 @@ func procCPU(pid int) float64 {
 	return 0
 }
 
+// limits of the evaluation workers; c13RetryAlone overrides them for its second attempt
+var (
+	c13WorkerCount   = 16
+	c13ProbeCPULimit = 5.0 // CPU seconds for a confirmation probe
+	c13WallCap       = 240 * time.Second
+)
+
+// c13RetryAlone evaluates the given cases again, two at a time (next to nothing else competes for
+// the cores), with a four times larger CPU-time limit: used for confirmation probes that hit the limit or lost
+// their worker during the parallel phase, so that machine load cannot turn a confirmable
+// divergence into a failing input.
+func c13RetryAlone(c *Cfg, cases []*c13Case) {
+	w, l, wc := c13WorkerCount, c13ProbeCPULimit, c13WallCap
+	c13WorkerCount, c13ProbeCPULimit, c13WallCap = 2, 20, 300*time.Second
+	for _, cs := range cases {
+		cs.importErr, cs.verdicts = "", nil
+	}
+	c13RunWorkers(c, cases)
+	c13WorkerCount, c13ProbeCPULimit, c13WallCap = w, l, wc
+}
+
+func init() {
+	if v := os.Getenv("C13_PROBE_CPU"); v != "" { // development aid: provoke the retry path
+		if f, err := strconv.ParseFloat(v, 64); err == nil {
+			c13ProbeCPULimit = f
+		}
+	}
+}
+
 func c13RunWorkers(c *Cfg, cases []*c13Case) {
-	workers := 16
+	workers := c13WorkerCount
 	if n := runtime.NumCPU(); n < workers {
 		workers = n
 	}
 	cpuLimit := float64(c.Pick(6, 8)) // CPU seconds per case
-	wallCap := 240 * time.Second
+	wallCap := c13WallCap
 	var wg sync.WaitGroup
 	next := make(chan int, 64)
 	for w := 0; w < workers; w++ {
@@ -194,7 +223,7 @@ func c13RunWorkers(c *Cfg, cases []*c13Case) {
 							used := procCPU(pp.cmd.Process.Pid) - cpu0
 							lim := cpuLimit
 							if cs.probe {
-								lim = 5
+								lim = c13ProbeCPULimit
 							}
 							if used > lim || time.Since(t0) > wallCap {
 								waiting = false
